@@ -893,3 +893,107 @@ func wlInvalidateWins(c *Ctx, out *raceWorkerOut) {
 		}
 	}
 }
+
+// wlCacheTorn: torn reads of SessionEntry.expiration made VISIBLE. The other workloads renew
+// entries whose old and new expiry lie in the same class, so a reader that mixed the words of two
+// time.Time values would still print a plausible time. Here every entry starts with an expiry in
+// wall-clock form (time.Unix: no monotonic reading, seconds in the `ext` word) ten hours ahead and
+// is then renewed to the monotonic form one hour ahead (seconds in the `wall` word, monotonic
+// nanoseconds in `ext`): a read that takes `wall` from one value and `ext` from the other yields a
+// time far outside both windows. Readers: DebugDump, Expiration, IsExpired via Snapshot.
+func wlCacheTorn(c *Ctx, out *raceWorkerOut) {
+	cache := security.NewSessionCache()
+	now := time.Now()
+	far := time.Unix(now.Unix()+10*3600, 0)
+	plausible := func(t time.Time) bool {
+		if t.IsZero() {
+			return true
+		}
+		d := t.Sub(now)
+		return (d > 30*time.Minute && d < 2*time.Hour) || (d > 9*time.Hour && d < 11*time.Hour)
+	}
+	var torn atomic.Value
+	stop := make(chan struct{})
+	var wg sync.WaitGroup
+	var stores, reads int64
+	for w := 0; w < 2; w++ {
+		wg.Add(1)
+		go func(w int) {
+			defer wg.Done()
+			for i := 0; ; i++ {
+				select {
+				case <-stop:
+					return
+				default:
+				}
+				e := security.NewSessionEntry(fmt.Sprintf("T%d-%d", w, i%16), "srv", &security.KeyInfo{Data: keyBytes(1), Protocol: "AES"}, nil, far, time.Hour, "")
+				cache.Store(e)
+				atomic.AddInt64(&stores, 1)
+				runtime.Gosched()
+				e.RenewLease()
+			}
+		}(w)
+	}
+	wg.Add(1)
+	go func() {
+		defer wg.Done()
+		for {
+			select {
+			case <-stop:
+				return
+			default:
+			}
+			for _, e := range cache.Snapshot() {
+				e.RenewLease()
+			}
+			cache.InvalidateExpired()
+		}
+	}()
+	for r := 0; r < 2; r++ {
+		wg.Add(1)
+		go func(r int) {
+			defer wg.Done()
+			for {
+				select {
+				case <-stop:
+					return
+				default:
+				}
+				if r == 0 {
+					for _, l := range strings.Split(cache.DebugDump(), "\n") {
+						for _, kv := range strings.Fields(l) {
+							if strings.HasPrefix(kv, "exp=") && kv != "exp=never" {
+								atomic.AddInt64(&reads, 1)
+								t, err := time.Parse(time.RFC3339Nano, kv[4:])
+								if err != nil || !plausible(t) {
+									torn.Store("DebugDump: " + l)
+								}
+							}
+						}
+					}
+				} else {
+					for _, e := range cache.Snapshot() {
+						atomic.AddInt64(&reads, 1)
+						if t := e.Expiration(); !plausible(t) {
+							torn.Store("Expiration(): " + t.Format(time.RFC3339Nano))
+						}
+						if e.IsExpired() {
+							torn.Store("IsExpired(): true for an entry that never had a past expiry")
+						}
+					}
+				}
+			}
+		}(r)
+	}
+	time.Sleep(time.Duration(c.Pick(700, 3000)) * time.Millisecond)
+	close(stop)
+	wg.Wait()
+	out.Dist["torn-stores"] += int(stores)
+	out.Dist["torn-reads"] += int(reads)
+	out.eval("cache-torn", true)
+	if tr := torn.Load(); tr != nil {
+		out.violate(Violation{Property: "C17", Key: "C17:torn-expiration", What: "a reader saw an expiration that no entry ever had (words of two different time.Time values mixed: torn read of SessionEntry.expiration)",
+			Ops:      []string{"# 2 goroutines: Store(entry with wall-clock expiry now+10h, lease 1h) then RenewLease (monotonic expiry now+1h); 1 goroutine: RenewLease over Snapshot + InvalidateExpired; 2 readers: DebugDump / Expiration+IsExpired over Snapshot"},
+			Expected: "every expiry read is now+10h (initial) or about now+1h (renewed)", Observed: fmt.Sprint(tr)})
+	}
+}
